@@ -33,6 +33,7 @@ RULE = ('(a) API histories over 8 names x 2 characters x 5 object classes (envir
         '(nested to depth 6, with unclosed inner groups closed by the enclosing object) and random unbalanced/malformed ones (pops '
         'without push, mismatched closers, category codes > 15); every history is observed after every operation. '
         '(b) balanced programs: nestings (depth <= 5) of {}, \\begingroup..\\endgroup, center/quote/itemize, $..$, $$..$$, \\[..\\], '
+        'Command-class environments (sloppypar, sloppy) and environments unknown to plasTeX (samepage, qunknownenv), '
         'tabular cells and rows, \\newenvironment-defined environments (empty / non-empty begin and end code, with and without an '
         'argument), \\textbf/\\emph/\\mbox/\\footnote/\\underline arguments with \\def, \\gdef, \\newcommand, \\let, \\catcode, '
         '\\makeatletter/\\makeatother, \\newif, \\newcounter/\\setcounter, \\global\\def/\\global\\let and uses of the defined macros in '
@@ -58,7 +59,7 @@ CELLS = [0, 1]            # 0: state of \ifqq   1: counter qc
 OTYPES = [('qenv', 'env', 0, []), ('qcmd', 'cmd', 0, []), ('endqenv', 'cmd', 0, []), ('qdoc', 'env', 1, []), ('qenvl', 'env', 0, [(0, 900)])]
 NAPI = len(OTYPES)
 # classes of the real constructs used at program level (only their identity/class/mode matters to Context.pop)
-PKINDS = ['center', 'quote', 'flushleft', 'itemize', 'math', 'displaymath', 'tabular', 'textbf', 'emph', 'mbox', 'footnote', 'underline',
+PKINDS = ['center', 'quote', 'flushleft', 'sloppypar', 'sloppy', 'samepage', 'qunknownenv', 'itemize', 'math', 'displaymath', 'tabular', 'textbf', 'emph', 'mbox', 'footnote', 'underline',
           'ArgumentContext']
 OTYPES = OTYPES + [(k, 'x', 0, []) for k in PKINDS]
 PT = dict((k, NAPI + i) for i, k in enumerate(PKINDS))
@@ -538,7 +539,10 @@ def streams(rng, tier, boost):
 #       | ['cat', ch, code, term] | ['atletter'] | ['atother'] | ['newif'] | ['iftrue'] | ['iffalse'] | ['newcounter'] | ['setcounter', z]
 #       | ['use', k] | ['probe'] | ['grp', kind, body] | ['tabular', rows] | ['loose-env', env, before, inner] | ['loose-grp', env, before, inner]
 #       | ['gprefix', 'def'|'let', ...]   (extended stream: \global\def, \global\let)
-ENVS = ['center', 'quote', 'flushleft']
+# environments: Environment subclasses; Command classes used with \\begin/\\end (sloppypar, sloppy: Macro.invoke's MODE_BEGIN branch
+# pushes the context and leaves it open until \\end); names unknown to plasTeX (samepage, qunknownenv: an UnrecognizedMacro class is
+# generated and takes the same branch).  \\begin{x} ... \\end{x} of any name is a group.
+ENVS = ['center', 'quote', 'flushleft', 'sloppypar', 'sloppy', 'samepage', 'qunknownenv']
 MATHS = {'math': ('$', '$', 'math'), 'ddollar': ('$$', '$$', 'displaymath'), 'dmath': ('\\[', '\\]', 'displaymath')}
 CMDS = ['textbf', 'emph', 'mbox', 'footnote', 'underline']
 
@@ -1035,12 +1039,12 @@ def small_progs():
     for ch in changes:
         for kind in kinds:
             yield dict(kind='prog', prog=pre + [['grp', kind, ch + [['use', 0], ['probe']]]] + post)
-            for kind2 in ['brace', 'center', 'math', 'textbf']:
+            for kind2 in ['brace', 'center', 'math', 'textbf', 'sloppypar', 'qunknownenv']:
                 if kind in MATHS and kind2 == 'math':
                     continue
                 yield dict(kind='prog', prog=pre + [['grp', kind, [['grp', kind2, ch + [['probe']]], ['use', 0], ['probe']]]] + post)
         yield dict(kind='prog', prog=pre + [['tabular', [[ch + [['probe']], [['use', 0], ['probe']]], [[['probe']], ch + [['probe']]]]]] + post)
-        for env in ENVS[:1]:
+        for env in ['center', 'sloppypar', 'samepage']:
             yield dict(kind='prog', prog=pre + [['loose-env', env, [['probe']], ch + [['probe']]]] + post)
             yield dict(kind='prog', prog=pre + [['loose-grp', env, [['probe']], ch + [['probe']]]] + post)
 
